@@ -15,7 +15,9 @@ theorem handlePUBACK_kq {w : World} (h : WInv w) (p : Nat) (ppr : Proto) (hpp : 
   cases hl : Ents.lookup w.ents ppr.addr .pub m with
   | none => rw [handlePUBACK_unknown p m w (by rw [hpa]; exact hl)]; exact KQ.refl w
   | some rid =>
-    obtain ⟨t, d, ht, hd, _, _, heq⟩ := handlePUBACK_effect h p ppr hpp hlive hconn m rid hl
+    by_cases hq1 : (w.req rid).qos = 1
+    case neg => rw [handlePUBACK_wrong_qos p m rid w (by rw [hpa]; exact hl) hq1]; exact KQ.refl w
+    obtain ⟨t, d, ht, hd, _, _, heq⟩ := handlePUBACK_effect h p ppr hpp hlive hconn m rid hl hq1
     rw [heq]
     intro hq
     have he := Ents.lookup_some hl
@@ -94,7 +96,9 @@ theorem handlePUBREC_kq {w : World} (h : WInv w) (p : Nat) (ppr : Proto) (hpp : 
   cases hl : Ents.lookup w.ents ppr.addr .pub m with
   | none => rw [handlePUBREC_unknown p m w (by rw [hpa]; exact hl)]; exact KQ.refl w
   | some rid =>
-    obtain ⟨t, bs, _, _, heq⟩ := handlePUBREC_effect h p ppr hpp hlive hconn m hm rid hl
+    by_cases hq2 : (w.req rid).qos = 2
+    case neg => rw [handlePUBREC_wrong_qos p m rid w (by rw [hpa]; exact hl) hq2]; exact KQ.refl w
+    obtain ⟨t, bs, _, _, heq⟩ := handlePUBREC_effect h p ppr hpp hlive hconn m hm rid hl hq2
     rw [heq]
     exact (afterPubrec_kq h ppr.addr m rid t bs ppr.initialT (Ents.lookup_some hl)).trans (retryReleaseW_same _ _ _ _).kq
 
